@@ -307,7 +307,7 @@ fn vk_ptrace_detach_ok() {
 // Bound: at most 3 wait results.
 // ---------------------------------------------------------------------------
 static mut WAITS: u8 = 0;
-static mut WAIT_SIG: [u8; 3] = [0; 3];        // 0 = SIGSTOP, 1 = SIGUSR1, 2 = SIGCHLD, 3 = exited, 4 = EINTR, 5 = error
+static mut WAIT_SIG: [u8; 3] = [0; 3];        // 0 = SIGSTOP, 3 = exited, 4 = EINTR, 5 = error, 32 + n = stopped by signal n (ANY signal 1..=31 but SIGSTOP)
 static mut ATTACHED: bool = false;
 static mut CONT_WITH: [u8; 3] = [9; 3];
 static mut CONTS: u8 = 0;
@@ -331,10 +331,12 @@ fn g_waitpid<P: Into<Option<nix::unistd::Pid>>>(pid: P, _f: Option<wait::WaitPid
         WAITS += 1;
         match k {
             0 => Ok(wait::WaitStatus::Stopped(p, signal::Signal::SIGSTOP)),
-            1 => Ok(wait::WaitStatus::Stopped(p, signal::Signal::SIGUSR1)),
-            2 => Ok(wait::WaitStatus::Stopped(p, signal::Signal::SIGCHLD)),
             3 => { ATTACHED = false; Ok(wait::WaitStatus::Exited(p, 0)) }
             4 => Err(Errno::EINTR),
+            n if n >= 32 => match signal::Signal::try_from((n - 32) as i32) {
+                Ok(sig) => Ok(wait::WaitStatus::Stopped(p, sig)),
+                Err(_) => { kani::assume(false); Err(Errno::ECHILD) }
+            },
             _ => Err(Errno::ECHILD),
         }
     }
@@ -343,11 +345,9 @@ fn g_cont<T: Into<Option<signal::Signal>>>(_pid: nix::unistd::Pid, sig: T) -> ni
     unsafe {
         if CONTS < 3 {
             CONT_WITH[CONTS as usize] = match sig.into() {
-                Some(signal::Signal::SIGUSR1) => 1,
-                Some(signal::Signal::SIGCHLD) => 2,
                 Some(signal::Signal::SIGSTOP) => 0,
+                Some(other) => 32 + (other as i32) as u8,
                 None => 8,
-                _ => 7,
             };
         }
         CONTS += 1;
@@ -377,7 +377,12 @@ fn g_getregs(_pid: Pid) -> std::result::Result<libc::user_regs_struct, ThreadInf
 fn vk_suspend_thread_protocol() {
     unsafe {
         WAIT_SIG = kani::any();
-        kani::assume(WAIT_SIG[0] <= 5 && WAIT_SIG[1] <= 5 && WAIT_SIG[2] <= 5);
+        let mut i = 0;
+        while i < 3 {
+            let k = WAIT_SIG[i];
+            kani::assume(k == 0 || k == 3 || k == 4 || k == 5 || (k >= 33 && k <= 63 && k != 32 + signal::Signal::SIGSTOP as i32 as u8));
+            i += 1;
+        }
         RSP_ZERO = kani::any();
         REGS_FAIL = kani::any();
     }
@@ -388,8 +393,8 @@ fn vk_suspend_thread_protocol() {
         let mut i = 0;
         while i < WAITS as usize {
             let k = WAIT_SIG[i];
-            if k == 1 || k == 2 {
-                assert!(seen < CONTS && CONT_WITH[seen as usize] == k, "a signal intercepted at attach is re-injected");   // [C03]
+            if k >= 32 {
+                assert!(seen < CONTS && CONT_WITH[seen as usize] == k, "a signal intercepted at attach is re-injected (whichever signal it is)");   // [C03]
                 seen += 1;
             }
             i += 1;
